@@ -4,7 +4,7 @@ import MM.Model.C23
 /-
   Engine c23: one op = one client byte stream fed to a real `socks5.Handler`.
 
-    h <auths> <dial> <udp><icmp> <input>
+    h <auths> <dial> <udp><icmp> <input> [f<k>]      (f<k>: the client's bytes arrive at most k per Read)
       auths : `-` (empty list) or comma-separated `N` | `S<name>.<pw>/<name>.<pw>...` (hex fields;
               a static credential store; `S` alone = empty store)
       dial  : `ok.<iphex|->.<port>` | `f.dns` | `f.timeout` | `f.dialop` | `f.other`
@@ -68,7 +68,7 @@ structure Op where
   icmp : Backend
   input : Bytes
 
-def parseOp (line : String) : Option Op :=
+partial def parseOp (line : String) : Option Op :=
   match tokens line with
   | ["h", au, di, be, inp] => do
     let auths ← parseAuths au
@@ -77,6 +77,7 @@ def parseOp (line : String) : Option Op :=
       | [u, i] => some (u, i)
       | _ => none
     pure ⟨auths, dial, ← parseBackend u, ← parseBackend i, ← bytesOfHex inp⟩
+  | ["h", au, di, be, inp, _frag] => parseOp s!"h {au} {di} {be} {inp}"   -- delivery fragmentation does not matter
   | _ => none
 
 def Op.env (o : Op) (cancelled : Bool) : Env :=
